@@ -129,6 +129,17 @@ Theorem C13_validate_no_retry_refuted :
 Proof. exact no_retry_refuted. Qed.
 Print Assumptions C13_validate_no_retry_refuted.
 
+(* cancellation is isolated: the shared fetch runs under no caller's context, a cancel step of one validator only
+   fails that validator.  For every schedule that contains no PD failure of a flight and no cancellation of
+   validator u itself (any number of other validators may be cancelled at any point), u never returns the
+   "fail to validate" error; together with C13_validate_accept_complete: a read ts issued before u's call is
+   never refused. *)
+Theorem C13_validate_cancel_isolated : forall (pd : nat -> Z) (u : nat) retry n es,
+  Forall (fun e => e <> EFlightFail /\ e <> ECancel u) es ->
+  voutcome_of (vrun pd retry (init_vsys n) es) u <> Some OErr.
+Proof. intros pd u retry n es H. exact (cancel_isolated pd u retry n es H). Qed.
+Print Assumptions C13_validate_cancel_isolated.
+
 (* --- local.go: the local oracle is strictly increasing while its clock does not go backwards and fewer than
        2^18 calls fall into one millisecond (state = (lastTimeStampTS, n), previous result = their sum) --- *)
 Theorem C13_local_monotone : forall m n now,
@@ -154,6 +165,13 @@ Example ex_cas_race :
   let s := run pd (init_sys 2) [Ev 0; Ev 1; Ev 0; Ev 1; Ev 0; Ev 0; Ev 0; Ev 1; Ev 1; Ev 1; Ev 1; Ev 1; Ev 0; Ev 0; Ev 0; Ev 0; Ev 0] in
   lowres s = Some 11 /\ option_map tpc (nth_error (thr s) 0) = Some (PDone (Some 10)) /\ option_map tpc (nth_error (thr s) 1) = Some (PDone (Some 11)).
 Proof. vm_compute. repeat split; reflexivity. Qed.
+(* A starts a flight, B joins, A is cancelled, PD answers: only A fails *)
+Example ex_cancel_isolated :
+  let s := vrun Z.of_nat true (init_vsys 2)
+     [EIssueEnv; EPublish 0; EBegin 0 1 false; EStep 0; EStep 0; EFlightIssue; EBegin 1 1 true; EStep 1; EStep 1;
+      ECancel 0; EFlightFinish; EStep 1] in
+  voutcome_of s 0 = Some OErr /\ voutcome_of s 1 = Some OAccept.
+Proof. vm_compute. split; reflexivity. Qed.
 Example ex_retry_accepts :
   voutcome_of (vrun Z.of_nat true (init_vsys 2) (no_retry_sched ++ [EStep 1; EStep 1; EFlightIssue; EFlightFinish; EStep 1])) 1 = Some OAccept.
 Proof. exact retry_same_schedule. Qed.
